@@ -19,13 +19,13 @@ ASSUMPTIONS = [
     "constant coefficients (else inconclusive)",
     "constants C=2, ratio 2.5, floor 0.1 delta calibrated on the pinned tree (DESIGN C01) and frozen",
 ]
-MIN_NONTRIVIAL = {"quick": 100, "thorough": 1500}
-TIMEOUT = {"quick": 1200, "thorough": 3400}
+MIN_NONTRIVIAL = {"quick": 100, "thorough": 4800}
+TIMEOUT = {"quick": 1200, "thorough": 7000}
 _selftest = {}
 
 
 def cases(tier, seed):
-    n = 192 if tier == "quick" else 2400
+    n = 192 if tier == "quick" else 9600
     return [{"seed": seed, "idx": i, "deep": bool(tier == "thorough" and i % 8 == 0)} for i in range(n)]
 
 
